@@ -1555,6 +1555,18 @@ def argsort(x, axis=-1, kind=None, **kw):
     return asarray(x).argsort(kind=kind)
 
 
+def isclose(a, b, rtol=1e-05, atol=1e-08, equal_nan=False):
+    """|a - b| <= atol + rtol * |b| element by element (finite values)"""
+    d = abs(a - b)
+    bound = atol + rtol * abs(b)
+    return d <= bound
+
+
+def allclose(a, b, rtol=1e-05, atol=1e-08, equal_nan=False):
+    r = isclose(a, b, rtol=rtol, atol=atol)
+    return all(r) if _py_isinstance(r, SArr) else r
+
+
 def roll(x, shift, axis=None):
     xa = asarray(x)
     if xa.ndim != 1 or is_sym(shift):
